@@ -58,7 +58,7 @@ ExternIdx(C, name) == FindName(C.p.externs, name)
 \* the external C functions the corpus declares (libc): their meaning is fixed by the C standard
 ExternApply(name, vs, st) ==
    CASE name = "labs" /\ Len(vs) = 1 /\ vs[1].t = "int" -> RV(VInt(IF I64IsNeg(vs[1].i) THEN I64Neg(vs[1].i) ELSE vs[1].i), st)
-     [] name = "toupper" /\ Len(vs) = 1 /\ vs[1].t = "int" ->
+     [] name = "toupper" /\ Len(vs) = 1 /\ vs[1].t = "int" /\ vs[1].i[1] = 0 /\ vs[1].i[2] = 0 /\ vs[1].i[3] = 0 /\ vs[1].i[4] <= 255 ->   \* defined for unsigned char values
            RV(VInt(IF vs[1].i[1] = 0 /\ vs[1].i[2] = 0 /\ vs[1].i[3] = 0 /\ vs[1].i[4] >= 97 /\ vs[1].i[4] <= 122
                    THEN <<0, 0, 0, vs[1].i[4] - 32>> ELSE vs[1].i), st)
      [] OTHER -> RV(VVoid, Fault(st, "unspecified:extern"))
